@@ -70,6 +70,7 @@ func startProd(work string, sc *dscenario, front string, dev map[int]string, pau
 	p.cmd.Dir = filepath.Join(work, "policies", "p1")
 	p.cmd.Env = []string{"HOME=" + work, "PATH=" + os.Getenv("PATH"), "TEST_TIME=2024-Sep-29 16:19:50",
 		"SIMULATE_ROUTER=" + filepath.Join(core.VerifDir, ".build", "verif") + " simstdio " + specFile}
+	p.cmd.Env = append(p.cmd.Env, sc.procEnv...)
 	p.cmd.Stdout = &p.stdout
 	p.cmd.Stderr = &p.stderr
 	p.cmd.SysProcAttr = &syscall.SysProcAttr{Setpgid: true}
@@ -180,6 +181,7 @@ func c12Process(ctx *core.Ctx, res *core.Result) {
 		h     holderT
 		phase int
 		kill  bool
+		gc    bool // holder runs with GOGC=1: collections (and finalizers) as early as possible
 	}
 	var jobs []job
 	for _, h := range holders {
@@ -202,7 +204,7 @@ func c12Process(ctx *core.Ctx, res *core.Result) {
 			}
 		}
 		for _, k := range phases {
-			jobs = append(jobs, job{h, k, false}, job{h, k, true})
+			jobs = append(jobs, job{h, k, false, false}, job{h, k, true, false}, job{h, k, false, true})
 		}
 	}
 	sem := make(chan struct{}, 12)
@@ -223,8 +225,12 @@ func c12Process(ctx *core.Ctx, res *core.Result) {
 			work := filepath.Join(base, fmt.Sprintf("j%d", ji))
 			sc := baseScenario(j.h.devType, j.h.front)
 			prepareWork(work, sc, 2)
-			holder := startProd(work, sc, j.h.front, nil, j.phase, "ctrl-holder", "")
-			ev := []string{fmt.Sprintf("holder=%s/%s paused at phase %d kill=%v", j.h.devType, j.h.front, j.phase, j.kill)}
+			hsc := *sc
+			if j.gc {
+				hsc.procEnv = []string{"GOGC=1"}
+			}
+			holder := startProd(work, &hsc, j.h.front, nil, j.phase, "ctrl-holder", "")
+			ev := []string{fmt.Sprintf("holder=%s/%s paused at phase %d kill=%v GOGC=1:%v", j.h.devType, j.h.front, j.phase, j.kill, j.gc)}
 			if !waitFile(filepath.Join(holder.ctrl, "paused"), 90*time.Second) {
 				holder.kill9()
 				add("holder-did-not-reach-phase", fmt.Sprintf("holder %v never reached phase %d", j.h, j.phase), ev)
